@@ -1770,6 +1770,402 @@ def replay_filters(w):
     return (bool(probs), "; ".join(probs[:3]) if probs else "filter battery: no private attribute reached the output")
 
 
+
+# =====================================================================================================================
+# 6. {% from X import name [as alias] %}: the one raw getattr of the generated code
+# =====================================================================================================================
+# CodeGenerator.visit_FromImport emits `getattr(included_template, '<name>', missing)` for every imported name; the parser is
+# what keeps private names away from it ("names starting with an underline can not be imported").
+def native_from_import(w=None):
+    """the property's own oracle on the from-import family: an imported name starting with an underscore is rejected at compile
+    time or stays undefined - with and without an alias, in first and in later position"""
+    from jinja2 import DictLoader
+    from jinja2.exceptions import TemplateSyntaxError, UndefinedError
+    lib = "{% macro hello() %}hi{% endmacro %}{% set _hidden = 'x' %}lib-body"
+    privates = ["__class__", "__dict__", "__init__", "__module__", "_body_stream", "_hidden", "_a"]
+    extra = (w or {}).get("name")
+    if extra and extra.startswith("_") and extra.isidentifier() and extra not in privates:
+        privates.insert(0, extra)
+    probs = []
+    for cls in (S.SandboxedEnvironment, S.ImmutableSandboxedEnvironment):
+        env = cls(loader=DictLoader({"lib": lib}))
+        for name in privates:
+            for src in ('{%% from "lib" import %s %%}{%% if %s is defined %%}HANDED{{ %s }}{%% endif %%}' % (name, name, name),
+                        '{%% from "lib" import %s as c %%}{%% if c is defined %%}HANDED{{ c }}{%% endif %%}' % name,
+                        '{%% from "lib" import hello, %s as c %%}{%% if c is defined %%}HANDED{{ c }}{%% endif %%}' % name,
+                        '{%% from "lib" import %s as c, hello %%}{%% if c is defined %%}HANDED{{ c }}{%% endif %%}' % name,
+                        '{%% from "lib" import %s as c with context %%}{%% if c is defined %%}HANDED{{ c }}{%% endif %%}' % name):
+                try:
+                    out = env.from_string(src).render()
+                except (TemplateSyntaxError, SecurityError, UndefinedError):
+                    continue
+                except Exception as ex:
+                    probs.append(f"{src!r}: {type(ex).__name__}: {ex}")
+                    continue
+                if "HANDED" in out:
+                    probs.append(f"{cls.__name__}: {src!r} rendered {out!r}")
+        try:
+            ok = env.from_string('{% from "lib" import hello %}{{ hello() }}{% from "lib" import hello as _h %}{{ _h() }}').render()
+            if ok != "hihi":
+                probs.append(f"ordinary from-import broken: {ok!r}")
+        except Exception as ex:
+            probs.append(f"ordinary from-import broken: {type(ex).__name__}: {ex}")
+    return (bool(probs), "; ".join(probs[:3]) or "from-import family: no private name is handed out")
+
+
+# ---- emission: visit_FromImport on a node whose `names` is a concrete list of 1-2 symbolic entries -------------------------
+FROM_SHAPES = [("plain",), ("pair",), ("plain", "plain"), ("plain", "pair"), ("pair", "plain"), ("pair", "pair")]
+
+
+def from_import_fields(shape):
+    def fields(st):
+        items = []
+        for i, kind in enumerate(shape):
+            items.append(sym(f"name{i}", "str") if kind == "plain" else (sym(f"name{i}", "str"), sym(f"alias{i}", "str")))
+        return {"names": st.alloc(HList(items=items), initial=True)}
+    return fields
+
+
+def from_import_configure(I):
+    def map_spec(I_, st, args, kwargs, node):
+        fn, it = args
+        res = [(st, [])]
+        for x in I_.iter_concrete(st, it, node):
+            nxt = []
+            for s_, acc in res:
+                for s2, v in I_.call(s_, fn, [x], {}, node):
+                    nxt.append((s2, v if isinstance(v, Raised) else acc + [v]))
+            res = nxt
+        return [(s_, acc if isinstance(acc, Raised) else tuple(acc)) for s_, acc in res]
+
+    I.specs[("fn", id(map))] = map_spec
+
+
+def from_import_pred(shape):
+    from pyvc import emit
+    from contracts.c17_emit import no_raw_attr_pred
+    from contracts.emit_common import hole_of
+
+    def pred(sc, tree, ph, txt):
+        if sc.outcome == "raise":
+            return [f"visit_FromImport raises {sc.value!r}"]
+        fails = list(no_raw_attr_pred(sc, tree, ph, txt) or [])
+        refs = {str(e.result.t): e.args[0] for e in sc.st.trace if e.kind == "call" and e.name == "symbols.ref" and isinstance(e.result, Sym)}
+
+        def term_of(n):
+            """the symbolic string a quoted-name placeholder constant stands for"""
+            if isinstance(n, ast.Constant) and isinstance(n.value, str):
+                k = f"'{n.value}'"
+                if k in ph and isinstance(ph[k], tuple) and ph[k][0] == "repr":
+                    return str(ph[k][1])
+            return None
+
+        body = tree.body
+        raw = sorted((n for n in ast.walk(tree) if isinstance(n, ast.Call) and emit.call_name(n) in ("getattr", "hasattr", "setattr", "delattr", "vars")),
+                     key=lambda n: (n.lineno, n.col_offset))
+        if len(raw) != len(shape):
+            fails.append(f"{len(raw)} raw attribute accesses emitted for {len(shape)} imported names")
+        for i, c in enumerate(raw[:len(shape)]):
+            ok = (emit.call_name(c) == "getattr" and not c.keywords and len(c.args) == 3 and isinstance(c.args[0], ast.Name) and c.args[0].id == "included_template"
+                  and isinstance(c.args[2], ast.Name) and c.args[2].id == "missing")
+            if not ok:
+                fails.append(f"raw access #{i} is not getattr(included_template, <name>, missing): {ast.unparse(c)}")
+                continue
+            if term_of(c.args[1]) != f"name{i}":
+                fails.append(f"raw access #{i} looks up {term_of(c.args[1]) or ast.unparse(c.args[1])} instead of the quoted IMPORTED name name{i}")
+            # its value is stored under the alias (the imported name when there is none)
+            par = [st_ for st_ in ast.walk(tree) if isinstance(st_, ast.Assign) and st_.value is c]
+            want_alias = f"alias{i}" if shape[i] == "pair" else f"name{i}"
+            tgt = par[0].targets[0] if par and len(par[0].targets) == 1 else None
+            key = tgt.id if isinstance(tgt, ast.Name) else None
+            got = None
+            if key in ph and isinstance(ph[key], tuple) and ph[key][0] == "ident":
+                arg = refs.get(str(ph[key][1]))
+                got = str(arg.t) if isinstance(arg, Sym) else None
+            if got != want_alias:
+                fails.append(f"value of imported name #{i} is not bound to frame.symbols.ref({want_alias}) (got {got})")
+        # included_template is the imported module: bound exactly once, by the first statement, from the template lookup
+        binds = [st_ for st_ in ast.walk(tree) if isinstance(st_, (ast.Assign, ast.AugAssign, ast.AnnAssign))
+                 for t_ in (st_.targets if isinstance(st_, ast.Assign) else [st_.target]) if isinstance(t_, ast.Name) and t_.id == "included_template"]
+        first = body[0] if body else None
+        if not (len(binds) == 1 and binds[0] is first and isinstance(first.value, (ast.Call, ast.Await))
+                and "environment.get_template" in ast.unparse(first.value) and any(hole_of(n, ph) is not None and hole_of(n, ph).path == "node.template" for n in ast.walk(first.value))):
+            fails.append("included_template is not bound exactly once to the module of environment.get_template(<node.template>, ...)")
+        return fails
+
+    return pred
+
+
+def from_import_emit_tasks():
+    from pyvc.emitcheck import EmitTask
+    import jinja2.nodes as N
+    out = []
+    for shape in FROM_SHAPES:
+        t = EmitTask("C17", f"C17.emit.from_import[names={'+'.join(shape)}]", "jinja2.compiler:CodeGenerator.visit_FromImport", N.FromImport,
+                     from_import_pred(shape), mode="stmts", buffers=(None,), replay_fn=native_from_import, node_fields=from_import_fields(shape),
+                     configure=from_import_configure, min_paths=2)
+        t.bound_text = "node.names is a list of 1 or 2 entries, each a plain name or a (name, alias) pair of symbolic strings (6 shapes); everything else symbolic"
+        out.append(t)
+    return out
+
+
+# ---- parser: every name placed in node.names does not start with an underscore ----------------------------------------------
+class ParseFrom(VC):
+    """Parser.parse_from over an abstract token stream (any number of imported names: the loop is cut, one generic iteration
+    from an arbitrary loop state): whenever something is appended to node.names, on that path the IMPORTED name - the plain name
+    or the first component of the (name, alias) pair - is the name of the target parsed in this iteration and does not start
+    with "_"; node.names is written in no other way."""
+    prop = "C17"
+    target = "jinja2.parser:Parser.parse_from"
+    timeout_quick = 20000
+
+    def __init__(self):
+        super().__init__("C17", "C17.parse_from.imported_names_public")
+
+    def configure(self, I):
+        import jinja2.parser as P
+        import jinja2.lexer as L
+        import jinja2.nodes as N
+        from jinja2.exceptions import TemplateSyntaxError
+        self.appends, self.other_writes, self.targets = [], [], []
+        task = self
+
+        def new_token(st):
+            return st.alloc(HObj(L.Token, fields={"lineno": fresh("tok_lineno", "int"), "type": fresh("tok_type", "str"), "value": fresh("tok_value", "str")}, path="token"))
+
+        def advance(st):
+            st.get(task.stream).fields["current"] = new_token(st)
+
+        def stream_op(name, returns):
+            def h(I_, st, args, kwargs, node):
+                out = []
+                if name == "expect":
+                    s1 = st.fork()
+                    e = Exc(TemplateSyntaxError, (), tag="expect", origin=getattr(node, "lineno", None))
+                    e.from_call = "stream.expect"
+                    out.append((s1, Raised(e)))
+                cur = st.get(task.stream).fields["current"]
+                advance(st)
+                if returns == "token":
+                    v = cur if name != "look" else new_token(st)
+                elif returns == "bool":
+                    v = fresh(name, "bool")
+                else:
+                    v = None
+                A.call_event(st, "stream." + name, args[1:], kwargs, v, node)
+                out.append((st, v))
+                return out
+            return h
+
+        I.specs["TokenStream.expect"] = stream_op("expect", "token")
+        I.specs["TokenStream.skip_if"] = stream_op("skip_if", "bool")
+        I.specs["TokenStream.look"] = stream_op("look", "token")
+        I.specs["TokenStream.skip"] = stream_op("skip", None)
+        I.specs["TokenStream.next_if"] = stream_op("next_if", "token")
+        nxt = stream_op("__next__", "token")
+        I.specs["next_obj"] = lambda I_, st, args, kwargs, node: nxt(I_, st, [args[0]], {}, node) if args[0] == task.stream else None
+        I.specs["Token.test"] = A.abstract_fn("token.test", returns="bool")
+        I.specs["Token.test_any"] = A.abstract_fn("token.test_any", returns="bool")
+        I.specs["Parser.parse_expression"] = A.abstract_fn("parse_expression", returns="obj")
+
+        def parse_assign_target(I_, st, args, kwargs, node):
+            advance(st)
+            ref = st.alloc(HObj(N.Name, fields={"name": fresh("target_name", "str"), "ctx": "store", "lineno": fresh("target_lineno", "int")}, path="target"))
+            task.targets.append((ref, dict(kwargs), list(args[1:])))
+            A.call_event(st, "parse_assign_target", args[1:], kwargs, ref, node)
+            return [(st, ref)]
+
+        I.specs["Parser.parse_assign_target"] = parse_assign_target
+
+        def fail(I_, st, args, kwargs, node):
+            cls = kwargs.get("exc", args[3] if len(args) > 3 else TemplateSyntaxError)
+            e = Exc(cls, tuple(args[1:2]), tag="fail", origin=getattr(node, "lineno", None))
+            A.call_event(st, "fail", args[1:], kwargs, e, node)
+            return [(st, Raised(e))]
+
+        I.specs["Parser.fail"] = fail
+
+        def new_from_import(I_, st, args, kwargs, node):
+            h = HObj(N.FromImport, fields=dict(kwargs), path="node")
+            h.plain_setattr = True
+            task.node = st.alloc(h)
+            return [(st, task.node)]
+
+        I.specs[("fn", id(N.FromImport))] = new_from_import
+
+        # ---- watch every write to node.names (also inside the cut loop)
+        base_call_method, base_setattr = I.call_method, I.setattr
+
+        def call_method(st, recv, name, args, kwargs, node=None):
+            nd = getattr(task, "node", None)
+            if nd is not None and isinstance(recv, Ref) and nd.id in st.heap and recv == st.get(nd).fields.get("names"):
+                if name == "append" and len(args) == 1:
+                    task.appends.append((args[0], list(st.pc), [r for r, _k, _a in task.targets if r.id in st.heap]))
+                elif name not in ("__len__", "__iter__", "__contains__", "copy", "index", "count"):
+                    task.other_writes.append((f"names.{name}", list(st.pc)))
+            return base_call_method(st, recv, name, args, kwargs, node)
+
+        def setattr_(st, obj, name, v, node=None):
+            nd = getattr(task, "node", None)
+            if nd is not None and obj == nd and name == "names":
+                empty = isinstance(v, Ref) and isinstance(st.get(v), HList) and st.get(v).concrete and not st.get(v).items
+                if not empty or getattr(task, "names_bound", False):
+                    task.other_writes.append(("node.names = ...", list(st.pc)))
+                task.names_bound = True
+            return base_setattr(st, obj, name, v, node)
+
+        I.call_method, I.setattr = call_method, setattr_
+
+        # ---- the loop: cut, nothing assumed about the state at the head of an iteration
+        fn_node, _m = extract.function_ast(P.Parser.parse_from)
+        loop = [n for n in ast.walk(fn_node) if isinstance(n, ast.While)][0]
+        assigned = sorted({n.id for n in ast.walk(loop) if isinstance(n, ast.Name) and isinstance(n.ctx, ast.Store)})
+
+        def heap(st, local):
+            nd = st.get(task.node)
+            lst = nd.fields.get("names")
+            if isinstance(lst, Ref):
+                h = st.get(lst)
+                h.items, h.arr, h.n, h.k = None, z3.Const(fresh_name("names_arr"), z3.ArraySort(z3.IntSort(), Obj)), z3.Int(fresh_name("names_n")), "obj"
+                st.assume(h.n >= 0)
+            nd.fields.pop("with_context", None)  # whether an earlier iteration set it does not matter for the clauses below
+            advance(st)
+
+        I.loops[("Parser.parse_from", 0)] = LoopSpec(lambda ctx: [], havoc={n: "obj" for n in assigned}, heap=heap, name="names_loop")
+
+    def setup(self, I, st):
+        import jinja2.parser as P
+        import jinja2.lexer as L
+        self.stream = st.alloc(HObj(L.TokenStream, fields={}, path="stream"), initial=True)
+        st.get(self.stream).fields["current"] = st.alloc(HObj(L.Token, fields={"lineno": sym("tok0_lineno", "int"), "type": sym("tok0_type", "str"), "value": sym("tok0_value", "str")}), initial=True)
+        self.parser = A.obj(st, P.Parser, "parser", fields={"stream": self.stream, "name": sym("tmpl_name", "obj"), "filename": sym("tmpl_filename", "obj")})
+        return [self.parser], {}
+
+    def imported(self, v):
+        if isinstance(v, Sym) and v.k == "str":
+            return v
+        if isinstance(v, tuple) and len(v) == 2 and isinstance(v[0], Sym) and v[0].k == "str":
+            return v[0]
+        return None
+
+    def formula(self):
+        fs = []
+        for v, pc, live_targets in self.appends:
+            nm = self.imported(v)
+            if nm is None:
+                return False
+            fs.append(z3.Implies(z3.And(*pc) if pc else z3.BoolVal(True), z3.Not(z3.PrefixOf(sv("_"), nm.t))))
+        for _d, pc in self.other_writes:
+            fs.append(z3.Not(z3.And(*pc)) if pc else z3.BoolVal(False))
+        if not self.appends:
+            return False  # the loop must have been explored
+        return z3.And(*fs)
+
+    def p_names(self, pre, out):
+        if out.idx != self.first_idx(out):
+            return None
+        return self.formula()
+
+    def first_idx(self, out):
+        return getattr(self, "_first", out.idx) if hasattr(self, "_first") else setattr(self, "_first", out.idx) or out.idx
+
+    def p_targets(self, pre, out):
+        """targets and aliases are parsed as plain names"""
+        if out.idx != getattr(self, "_first", out.idx):
+            return None
+        return bool(self.targets) and all(kw.get("name_only") is True and not a for _r, kw, a in self.targets)
+
+    def p_outcome(self, pre, out):
+        from jinja2.exceptions import TemplateSyntaxError
+        if out.raised:
+            return out.value.cls is not None and issubclass(out.value.cls, TemplateSyntaxError)
+        return out.value == getattr(self, "node", None)
+
+    posts = [("every_appended_name_is_public", p_names), ("targets_are_plain_names", p_targets), ("returns_the_node_or_a_syntax_error", p_outcome)]
+
+    def concretize(self, model, pre, out):
+        name, alias = "_a", None
+        for v, pc, _t in self.appends:
+            nm = self.imported(v)
+            if nm is None:
+                continue
+            try:
+                holds = all(z3.is_true(model.eval(c, model_completion=True)) for c in pc)
+            except Exception:
+                holds = False
+            s_ = unescape_z3(model_str(model, nm.t, "_a"))
+            if holds and s_.startswith("_"):
+                clean = "".join(ch for ch in s_ if ch.isalnum() or ch == "_")
+                name = clean if clean.isidentifier() else "_a"
+                alias = "c" if isinstance(v, tuple) else None
+                break
+        return {"name": name, "alias": alias}
+
+    def replay(self, w):
+        return replay_parse_from(w)
+
+
+def parse_from_outcome(src):
+    """-> ('rejected', exception name) | ('names', list) for the real parser"""
+    from jinja2.exceptions import TemplateSyntaxError
+    import jinja2.nodes as N
+    env = S.SandboxedEnvironment()
+    try:
+        tree = env.parse(src)
+    except TemplateSyntaxError as ex:
+        return ("rejected", type(ex).__name__)
+    fi = list(tree.find_all(N.FromImport))
+    return ("names", [tuple(x) if isinstance(x, (tuple, list)) else x for x in fi[0].names] if fi else None)
+
+
+def replay_parse_from(w):
+    name, alias = w.get("name") or "_a", w.get("alias")
+    srcs = ([w["src"]] if w.get("src") else []) + [
+        '{%% from "lib" import %s%s %%}' % (name, f" as {alias}" if alias else ""),
+        '{%% from "lib" import %s as c %%}' % name, '{%% from "lib" import %s %%}' % name, '{%% from "lib" import a, %s as c %%}' % name,
+        '{%% from "lib" import a as %s %%}' % name, '{%% from "lib" import a, b as %s with context %%}' % name]
+    for src in srcs:
+        kind, val = parse_from_outcome(src)
+        imported = [x[0] if isinstance(x, tuple) else x for x in (val or [])] if kind == "names" else []
+        if any(str(x).startswith("_") for x in imported):
+            v2, d2 = native_from_import({"name": name})
+            return (True, f"the real parser accepts {src!r} with node.names = {val!r} (imported name starts with an underscore); " + d2)
+    return (False, f"the real parser never places a name starting with an underscore in node.names for {name!r}")
+
+
+def parse_from_standin(task, tier, seed):
+    """bounded stand-in: the real parser on every import list of one or two entries over the names below, with and without alias
+    and context modifier: rejected (TemplateAssertionError) exactly when an IMPORTED name starts with "_", else node.names is the
+    list of names / (name, alias) pairs as written"""
+    import itertools
+    names = ["a", "_a", "__class__", "b"]
+    entries = [(n, None) for n in names] + [(n, al) for n in names for al in names]
+    lists = [[e] for e in entries] + [[e1, e2] for e1 in entries for e2 in entries]
+    ctxs = ["", " with context", " without context"]
+    n, bad = 0, []
+    for lst in lists:
+        for ctx in (ctxs if len(lst) == 1 else ctxs[:2]):
+            src = '{% from "lib" import ' + ", ".join(nm if al is None else f"{nm} as {al}" for nm, al in lst) + ctx + " %}"
+            n += 1
+            kind, val = parse_from_outcome(src)
+            private = any(nm.startswith("_") for nm, _al in lst)
+            if private:
+                ok = kind == "rejected" and val == "TemplateAssertionError"
+            else:
+                ok = kind == "names" and val == [nm if al is None else (nm, al) for nm, al in lst]
+            if not ok:
+                bad.append((src, kind, val))
+    task.bound_text = f"{n} from-import tags: 1-2 entries over names {names}, each plain or with an alias from the same set, with / without context modifier"
+    if bad:
+        first = bad[0]
+        import re
+        m = re.search(r"import (\w+)(?: as (\w+))?", first[0])
+        priv = [x for x in re.findall(r"(\w+)(?: as \w+)?(?:,| with| without| %)", first[0]) if x.startswith("_")]
+        return [Res("C17.parse_from.bounded", "refuted", "bounded", 0, f"{len(bad)} tags, e.g. {first[0]!r} -> {first[1]} {first[2]!r}", "bounded",
+                    {"name": (priv[0] if priv else "_a"), "alias": "c", "src": first[0]})]
+    return [Res("C17.parse_from.bounded", "bounded-ok", "bounded", 0, task.bound_text, "bounded")]
+
+
 def replay_undefined_raises(w):
     rs = [r for r in undefined_raises(None, "quick", 0) if r.status == "refuted"]
     return (bool(rs), "; ".join(f"{r.name}: {r.detail}" for r in rs) or "every use of the sandbox undefined raises SecurityError")
@@ -1785,7 +2181,8 @@ TASKS = [IsInternal(), FnTask("C17", "C17.internal.live", internal_live_types, "
          FnTask("C17", "C17.format.vformat_dependency", vformat_standin, "bounded", replay_format),
          AttrGetter(), MultiAttrGetter(1), MultiAttrGetter(2), DoAttr(), DoRound(),
          FnTask("C17", "C17.filters._prepare_attribute_parts", parts_standin, "bounded", replay_parts),
-         ScanTask()]
+         ScanTask(), ParseFrom(),
+         FnTask("C17", "C17.parse_from.bounded", parse_from_standin, "bounded", replay_parse_from)] + from_import_emit_tasks()
 
 META = {
     "level": "proof",
@@ -1798,8 +2195,13 @@ META = {
                    "wrapper, the item or an undefined whose exception class is SecurityError. is_safe_attribute is True only for names "
                    "without leading underscore that is_internal_attribute does not classify. Format-field lookups and filter attribute "
                    "arguments are folds of environment.getattr/getitem for every path length (loop invariants); a syntactic scan of "
-                   "filters.py shows no other reflective access with a non-constant name. The compiler half (emission obligations) is "
-                   "attached from contracts/c17_emit.py.",
+                   "filters.py shows no other reflective access with a non-constant name. The one raw getattr of the generated code, "
+                   "`getattr(included_template, '<name>', missing)` of {% from ... import %}, is covered by Parser.parse_from (abstract token "
+                   "stream, loop cut: every name appended to node.names is the imported name of the target parsed in that iteration and does "
+                   "not start with '_'; plus a bounded stand-in on the real parser) and by emission obligations on visit_FromImport for "
+                   "node.names lists of 1-2 symbolic entries (plain / (name, alias); 6 shapes): exactly one raw getattr per entry, on the "
+                   "imported module, with the quoted IMPORTED name, bound under the alias. The remaining compiler half (emission obligations) "
+                   "is attached from contracts/c17_emit.py.",
     "assumptions": ["the nine builtin kinds tested by is_internal_attribute have pairwise disjoint instance sets",
                     "string.Formatter.vformat resolves replacement fields only through self.get_field (documented; bounded stand-in "
                     "C17.format.vformat_dependency)",
@@ -1809,7 +2211,9 @@ META = {
                     "an undefined created with exc=SecurityError raises SecurityError when used (table check here, general proof under C21)"],
     "trusted_base": ["z3 5.1 / cvc5", "pyvc symbolic executor", "ghost specs of builtin getattr / subscript on opaque values (contracts/c17.py)",
                      "str.startswith / membership dependency specs", "formatter_field_name_split returns (first, iterator of (is_attr, key))",
-                     "bounded stand-ins: _prepare_attribute_parts, Formatter.vformat -> get_field"],
+                     "bounded stand-ins: _prepare_attribute_parts, Formatter.vformat -> get_field, parse_from on 1-2 import entries",
+                     "emission engine pyvc/emit.py (visit_FromImport: shape bound 1-2 names)",
+                     "abstract TokenStream / parse_assign_target specs in C17.parse_from (a parsed target is a Name node with an arbitrary name)"],
 }
 
 try:
